@@ -7,7 +7,7 @@
 From Coq Require Import ZArith List Bool Lia.
 Import ListNotations.
 Require Import SV.Common SV.C08.Gen_tokens SV.C08.Stream SV.C08.StreamProofs SV.C08.CaptureProofs SV.C08.Instance.
-Require Import SV.C07.Strip SV.C07.ChannelProofs SV.C07.Fds SV.C07.FdsProofs SV.C07.World SV.C07.WorldProofs.
+Require Import SV.C07.Strip SV.C07.ChannelProofs SV.C07.Fds SV.C07.FdsProofs SV.C07.Gen_facts SV.C07.World SV.C07.WorldProofs.
 
 (* capture off: after every read each non-empty read has been logged, through
    tr, at once and in order (nothing held back, nothing twice) *)
@@ -134,3 +134,15 @@ Theorem c07_ansi_constants :
   ansi_terminators = [72; 102; 65; 66; 67; 68; 82; 115; 117; 74; 75; 104; 108; 112; 109]%Z.
 Proof. split; reflexivity. Qed.
 Print Assumptions c07_ansi_constants.
+
+(* reap time (facts generated from ServerOptions.readfd and Subprocess.finish):
+   the one read drain() makes per dispatcher returns everything a 64 KiB pipe can
+   hold, and it happens before the final flush *)
+Theorem c07_drain_reads_whole_pipe : forall b : bytes, (zlen b <= 65536)%Z ->
+  firstn (read_take readfd_size b) b = b /\ skipn (read_take readfd_size b) b = [].
+Proof. exact drain_reads_whole_pipe. Qed.
+Print Assumptions c07_drain_reads_whole_pipe.
+
+Theorem c07_finish_drains_before_flush : finish_drain_first = true.
+Proof. exact finish_drains_before_flush. Qed.
+Print Assumptions c07_finish_drains_before_flush.
